@@ -139,6 +139,7 @@ def wrapper_file(f, backend):
 def wrapper_stubs(f, backend="u64", names=None):
     """stub items importing the wrapper contracts into an abstract-field unit"""
     F = FIELDS[f]
+    fp_ = field_params(f)
     c = wrapper_contracts(f)
     names = names or ["from_le_limbs", "from_raw_bytes", "to_le_limbs", "to_bytes_le", "from_montgomery_limbs",
                       "square", "inverse", "add", "sub", "mul", "neg"]
@@ -153,6 +154,9 @@ impl {F} {{
     pub exec const ZERO: {F} ensures {F}::ZERO.val() == 0 {{ {F}::dummy_() }}
     #[verifier::external_body]
     pub exec const ONE: {F} ensures {F}::ONE.val() == 1 {{ {F}::dummy_() }}
+    // 2^(8 * N_8) mod p: literal initialiser checked in the consts unit (c17_{f}_FIELD_SIZE_POWER_OF_TWO[_value])
+    #[verifier::external_body]
+    pub exec const FIELD_SIZE_POWER_OF_TWO: {F} ensures {F}::FIELD_SIZE_POWER_OF_TWO.val() == {pow(2, 8 * fp_["N8"], fp_["P"])}int {{ {F}::dummy_() }}
 }}
 """
     return items, consts
